@@ -1,11 +1,15 @@
 """C07 -- the Python (in-line) and C (compiled / out-of-line) type-string parsers
 denote the same type.
 
-E1: every derivation of depth <= d of the declarator grammar G (see _typegrammar),
-in two spellings, plus every single-token deletion / duplication / adjacent swap of
-every depth <= 3 string, in three declaration contexts.  Oracle: differential --
-cffi.FFI().typeof(s) against the ffi of an imported out-of-line ABI module generated
-from the same cdef: both reject, or both accept and denote the same type.
+E1: every derivation of depth <= d of the declarator grammar G (see _typegrammar,
+Grammar(ext=True)), in two spellings, plus every single-token deletion / duplication /
+adjacent swap of every depth <= 3 string, plus the side families of _c07x (named
+parameters, 3-4 parameters and nested parameter lists, literal forms and kinds of
+named constants as array lengths, every typedef as a parameter type), in four
+declaration contexts.  Oracle: differential -- cffi.FFI().typeof(s) against the ffi of
+an imported out-of-line ABI module, or of a compiled API-mode extension module, made
+from the same cdef: both reject, or both accept and denote the same type, and each
+gives the same object again when asked a second time.
 """
 import collections
 import gc
@@ -15,6 +19,7 @@ import shutil
 from .. import build, pool
 from ..build import InfraError
 from . import _typegrammar as G
+from . import _c07x as X
 
 ID = "C07"
 LEVEL = "exploration"
@@ -23,32 +28,65 @@ META = dict(
     technique="bounded exhaustive enumeration of all derivations of a declarator grammar and all their one-token "
               "near misses, differential between the two type-string parsers",
     text="Every derivation of depth <= 3 (thorough 4) of a grammar transcribed from the statement (all orderings of "
-         "all primitive specifier multisets, const/volatile at every specifier position and after '*', pointer "
-         "chains, arrays with decimal/octal/hex/#define/enumerator/empty lengths, function pointers with void / "
-         "one / two / variadic parameter lists drawn recursively, __cdecl/__stdcall in both positions, nested "
-         "grouping parentheses, over int, char, unsigned long, double, void, _Bool, four typedefs, struct, union, "
-         "enum) and every single-token deletion, duplication and adjacent swap of every depth <= 3 string is given "
-         "to the in-line FFI and to the FFI of an imported out-of-line module built from the same cdef, in three "
-         "declaration contexts (none, direct, via ffi.include; near misses: direct only in the quick tier, none + "
-         "direct in the thorough tier).  Both must reject, or return the identical ctype object (same "
-         "kind/shape/name where a struct, union or enum occurs).  Every disagreement is attributed to a root cause "
-         "by a structural condition on the input; what no listed cause explains is reported as 'unexplained'.",
+         "all primitive specifier multisets including float/double _Complex, const/volatile at every specifier "
+         "position and after '*', pointer chains, arrays with decimal/octal/hex/#define/enumerator/empty lengths, "
+         "function pointers with void / one / two / variadic parameter lists drawn recursively, __cdecl/__stdcall in "
+         "both positions, nested grouping parentheses, over int, char, unsigned long, double, void, _Bool, struct, "
+         "union, enum, ten typedefs -- of int, pointer, tagged struct, anonymous struct, array, function, function "
+         "pointer, void, anonymous enum, pointer to anonymous struct -- and the predeclared names bool, int32_t, "
+         "size_t, wchar_t, char16_t) and every single-token deletion, duplication and adjacent swap of every depth "
+         "<= 3 string is given to the in-line FFI and to the FFI of a generated module built from the same cdef, in "
+         "four declaration contexts (none, direct, via ffi.include -- out-of-line ABI modules -- and a compiled "
+         "API-mode extension; near misses: direct only in the quick tier, none + direct in the thorough tier).  Four "
+         "side families, each a complete finite product, cover what the depth bound cuts off: every derivation of "
+         "depth <= 2 (thorough 3) as a NAMED parameter in five parameter-list shapes; parameter lists of 3 and 4 "
+         "parameters and parameters that have 2-4 parameters themselves, three levels deep, under four hosts; 43 "
+         "literal forms (several digits, both hex cases, invalid digits, the 2**31 / 2**32 / SSIZE_MAX / 2**64 "
+         "thresholds, size overflow) and 16 named constants (negative, > 2**32, > SSIZE_MAX #defines, enumerators of "
+         "tagged / anonymous / typedef'd enums, a constant without value, a function, a variable, a typedef) as array "
+         "lengths in nine declarator shapes; every typedef as parameter type under eleven parameter declarators.  "
+         "Both must reject, or return the identical ctype object (same kind/shape/name where a struct, union or enum "
+         "occurs), and every FFI that accepts a string must return the same object when asked again (cache path).  "
+         "Every disagreement is attributed to a root cause by a structural condition on the input; what no listed "
+         "cause explains is reported as 'unexplained'.",
     note="differential oracle: a defect shared by both parsers is invisible here (C30 and C08 look at each parser "
          "alone); strings whose struct/union/enum/typedef/constant names are not declared in the context are "
-         "outside the statement and are counted, not compared")
+         "outside the statement and are counted, not compared; so are array lengths that the statement does not "
+         "list (binary literals, suffixes, character constants, expressions) and resource limits (the C parser's "
+         "1200-opcode buffer, the Python recursion limit of the in-line parser); parameter names are not in the "
+         "statement's grammar: the named family reports under its own signature key and leaves out names directly "
+         "after an opening parenthesis, where the parsers are known to differ")
 
 NM_DEPTH = 3           # near misses are taken of every string of depth <= 3 in both tiers
 BLOCK = 1500
 
 _PAIRS = None
+_API = None            # (module name, path of the .so): compiled once by the driver, imported by every worker
+CONTEXTS = G.CONTEXTS + ("api",)
+
+
+def _make_pair(c, d, ext=True):
+    return G.make_pair(c, d, ext=ext, api=_API)
+
+
+def _needs_ext(tokens, c):
+    """The in-line parser re-declares every typedef name of its FFI in front of every type string it
+    parses, so the ten extra declarations cost every string ~30 %.  A string that uses none of their
+    names is therefore given to the FFIs of the base declarations (what it denotes does not depend on
+    declarations it does not mention); the 'api' context has the extended declarations only."""
+    return c == "api" or not G.EXT_NAMES.isdisjoint(tokens)
 
 
 def _pairs():
+    """{(context, ext): Pair}"""
     global _PAIRS
     if _PAIRS is None or _PAIRS[0] != os.getpid():
         d = os.path.join(_workdir(), "w%d" % os.getpid())
         os.makedirs(d, exist_ok=True)
-        _PAIRS = (os.getpid(), {c: G.make_pair(c, d) for c in G.CONTEXTS})
+        pairs = {(c, True): _make_pair(c, d) for c in CONTEXTS}
+        for c in G.CONTEXTS:
+            pairs[c, False] = pairs[c, True] if c == "empty" else _make_pair(c, d, ext=False)
+        _PAIRS = (os.getpid(), pairs)
     return _PAIRS[1]
 
 
@@ -62,9 +100,19 @@ def _try(ffi, s):
 
 def judge(pair, s):
     """-> (verdict, inline_obs, compiled_obs); verdict in reject / same / equiv (agreement) or
-    c_rejects / py_rejects / different_type (disagreement)."""
+    c_rejects / py_rejects / different_type / second_lookup (disagreement).
+    An FFI that accepts the string is asked a second time (the cached path: FFI._parsed_types,
+    ffi_obj.c types_dict): the same string must denote the same object again."""
     oka, a = _try(pair.inline, s)
     okb, b = _try(pair.compiled, s)
+    if oka:
+        oka2, a2 = _try(pair.inline, s)
+        if not oka2 or a2 is not a:
+            return "second_lookup", G.describe(a), ["inline", G.describe(a2) if oka2 else a2]
+    if okb:
+        okb2, b2 = _try(pair.compiled, s)
+        if not okb2 or b2 is not b:
+            return "second_lookup", G.describe(b), ["compiled", G.describe(b2) if okb2 else b2]
     if not oka and not okb:
         return "reject", a, b
     if oka and not okb:
@@ -122,17 +170,19 @@ def features(tokens):
             f.add("array")
             if nxt == "]":
                 f.add("len_open")
-            elif nxt in ("K", "Z"):
-                f.add("len_define")
-                if nxt == "Z":
+            elif nxt in G.CONST_KIND:
+                f.add("len_" + G.CONST_KIND[nxt])
+                if nxt in ("Z", "E0", "X0"):
                     f.add("len_named_zero")
-            elif nxt in ("E1", "E0"):
-                f.add("len_enumerator")
-                if nxt == "E0":
-                    f.add("len_named_zero")
+                elif nxt in ("NEG", "EM"):
+                    f.add("len_named_negative")
+                elif nxt in ("BIG", "HUGE"):
+                    f.add("len_named_" + nxt.lower())
+                elif nxt == "AN":       # declared in DECLS_XA, the part that the 'include' context includes
+                    f.add("len_anon_enumerator_xa")
             elif nxt in G.QUALS:
                 f.add("qual_inside_brackets")
-            elif nxt is not None and nxt.startswith("0x"):
+            elif nxt is not None and nxt[:2] in ("0x", "0X"):
                 f.add("len_hex")
             elif nxt is not None and len(nxt) > 1 and nxt[0] == "0":
                 f.add("len_octal")
@@ -140,6 +190,8 @@ def features(tokens):
                 f.add("len_zero")
             elif nxt is not None and nxt.isdigit():
                 f.add("len_decimal")
+                if len(nxt) > 9:
+                    f.add("len_over_31_bits")
         if t in G.ABIS:
             f.add("abi")
             ok = False
@@ -159,6 +211,8 @@ def features(tokens):
                 f.add("ellipsis_without_comma")
         if t == ",":
             f.add("two_params")
+        if t in G.COMMON_TYPES:
+            f.add("common_type")
         if t == "void" and prv == "(" and nxt == ")":
             f.add("void_params")
         if t in ("struct", "union", "enum"):
@@ -175,20 +229,60 @@ def features(tokens):
         prims = [tokens[k] for k in specs]
         if len(prims) > 1:
             f.add("multi_specifier")
+        before_complex = ()
+        if "_Complex" in prims:
+            f.add("complex")
+            c = specs[prims.index("_Complex")]
+            fl = [k for k in specs if tokens[k] in ("float", "double") and k < c]
+            if fl:
+                before_complex = [k for k in quals if fl[-1] < k < c]
+            if before_complex:
+                f.add("qual_before_complex")
+        if s > 0 and tokens[s - 1] in ("(", ",") and len(prims) == 1:
+            # a parameter whose type specifier is a typedef name
+            if prims[0] == "td_fn":
+                if e < n and tokens[e] in (")", ","):
+                    f.add("func_typedef_param")
+                elif e < n and tokens[e] == "[" and "]" in tokens[e:]:
+                    j = e + tokens[e:].index("]")
+                    if j + 1 < n and tokens[j + 1] in (")", ","):
+                        f.add("func_typedef_array_param")
+            if prims[0] == "td_v" and tokens[s - 1] == "(" and e < n and tokens[e] == ")":
+                f.add("sole_void_typedef_param")
+        if (s > 0 and tokens[s - 1] in ("(", ",") and specs and e + 3 < n and tokens[e] == "[" and
+                tokens[e + 2] == "]" and tokens[e + 3] in (")", ",") and _bad_length(tokens[e + 1])):
+            f.add("array_param_bad_length")
         for k in quals:
             if not specs or k < specs[0]:
                 f.add("qual_before_specs")
             elif k > specs[-1]:
                 f.add("qual_after_specs")
-            else:
+            elif k not in before_complex:
                 f.add("qual_between_specs")
         nsign = prims.count("signed") + prims.count("unsigned")
         if "signed" in prims and (nsign > 1 or any(x in ("double", "float", "void", "_Bool") for x in prims)):
             f.add("signed_discarded")
         base = [x for x in prims if x in ("int", "char", "double", "float", "void", "_Bool")]
-        if base and prims[-1] != base[-1]:
+        if base and [x for x in prims if x != "_Complex"][-1] != base[-1]:
             f.add("specifier_after_base_keyword")
     return f
+
+
+SSIZE_MAX = 2 ** 63 - 1
+
+
+def _bad_length(t):
+    """A length that no array can have: a negative named constant, or a value > SSIZE_MAX."""
+    if t in ("NEG", "EM", "HUGE"):
+        return True
+    try:
+        if t[:2] in ("0x", "0X"):
+            return int(t[2:], 16) > SSIZE_MAX
+        if t.isdigit():
+            return int(t, 8 if t[0] == "0" else 10) > SSIZE_MAX
+    except ValueError:
+        pass
+    return False
 
 
 def _rename(desc, old, new):
@@ -205,6 +299,8 @@ def causes(tokens, context, verdict, inline_obs=None, compiled_obs=None):
     f = features(tokens)
     if context == "include" and "len_define" in f:
         f.add("define_from_included_ffi")
+    if context == "include" and "len_anon_enumerator_xa" in f:
+        f.add("anon_enumerator_from_included_ffi")
     if verdict == "different_type" and "tagged_struct_typedef" in f and inline_obs is not None:
         # #12 explains a difference only if the two types are the same up to the name of that struct
         if _rename(inline_obs, ["struct", "td_s"], ["struct", "struct St"]) != compiled_obs:
@@ -241,53 +337,83 @@ CAUSES = [
     ("define_from_included_ffi", ("c_rejects",)),
     # parse_sequel() takes '(' + const/volatile for grouping parentheses (qualifier before the '*')
     ("paren_then_qualifier", ("py_rejects",)),
+    # -- causes found with the extended grammar (typedefs of every constructor, _Complex) --
+    # parse_sequel() decides on the *opcode* of a parameter whether it decays to a pointer; a typedef of a
+    # function type is OP_TYPENAME and is then realised as an object type (cparser._as_func_arg looks at the
+    # resolved type)
+    ("func_typedef_param", ("c_rejects",)),
+    # ... and an array of that typedef (not C) decays to a pointer to the item, which realize_c_type turns
+    # into a function pointer; the in-line parser rejects an array of functions
+    ("func_typedef_array_param", ("py_rejects",)),
+    # parse_sequel() takes only the token 'void' + ')' for an empty parameter list; cparser any type that
+    # resolves to void
+    ("sole_void_typedef_param", ("c_rejects", "different_type")),
+    # parse_complete() looks for _Complex directly after float/double; qualifiers are skipped only in the
+    # modifier loop before the base keyword
+    ("qual_before_complex", ("c_rejects",)),
+    # Parser.include() copies _int_constants (so the in-line FFI knows the enumerators of an included anonymous
+    # enum) but skips the 'anonymous' declarations, so the including module has no global for them
+    ("anon_enumerator_from_included_ffi", ("c_rejects",)),
+    # cparser._as_func_arg() turns an array parameter into a pointer without ever building the array type, so
+    # its (first) length is never checked: negative or > SSIZE_MAX is accepted; parse_sequel() checks it
+    ("array_param_bad_length", ("c_rejects",)),
 ]
 
 
 def work(block):
-    """block = (contexts, [strings]).  -> (evaluations, counts, disagreements)"""
-    ctxs, strings = block
+    """block = (family, contexts, [strings]).  -> (evaluations, counts, disagreements)"""
+    family, ctxs, strings = block
     pairs = _pairs()
     counts = collections.Counter()
     bad = []
     n = 0
     for s in strings:
         tokens = G.tokenize(s)
+        if family == "named":
+            tokens = X.strip_names(tokens)      # scope and features are those of the parameter's type
         f = None
         for c in ctxs:
             why = G.in_scope(tokens, c)
             if why is not None:
                 counts["excluded:%s:%s" % (c, why)] += 1
                 continue
-            v, a, b = judge(pairs[c], s)
+            ext = _needs_ext(tokens, c)
+            v, a, b = judge(pairs[c, ext], s)
             n += 1
             counts["verdict:%s:%s" % (c, v)] += 1
+            if ext and c != "api":
+                counts["declarations:%s:extended" % c] += 1
             if f is None:
                 f = features(tokens)
                 if f:
                     counts["nontrivial"] += 1
             acc = "accept" if v in ("same", "equiv") else ("reject" if v == "reject" else "disagree")
+            counts["family:%s:%s" % (family, acc)] += 1
             for x in f:
                 counts["feature:%s:%s" % (x, acc)] += 1
             if v not in AGREE:
-                bad.append((c, s, v, a, b))
+                bad.append((c, s, v, a, b, family))
     return n, dict(counts), bad
 
 
 # ---------------------------------------------------------------------------------------
 
 def space(ctx):
+    """-> depth, derivations, {family: sorted strings}.  Families:
+    derivation / near_miss -- the extended grammar G (see _typegrammar.Grammar(ext=True)) and its
+    one-token edits; named / arity / lengths -- the side families of _c07x."""
     depth = 3 if ctx.quick else 4
     if "depth" in getattr(ctx, "opts", {}):
         depth = int(ctx.opts["depth"])
-    g = G.Grammar()
+    g = G.Grammar(ext=True)
     tn = g.typenames(depth)
     base = [t for c, t in tn]
     base_nm = [t for c, t in tn if c <= NM_DEPTH]
     baseset = set(base)
     for t in base:          # self-check of the scope rule: it must not exclude any derivation of G
-        if G.in_scope(t, "decls") is not None or G.in_scope(t, "include") is not None:
-            raise InfraError("scope rule excludes the derivation %r" % (G.spaced(t),))
+        for c in ("decls", "include", "api"):
+            if G.in_scope(t, c) is not None:
+                raise InfraError("scope rule excludes the derivation %r" % (G.spaced(t),))
     strings_base = set()
     for c, t in tn:
         strings_base.add(G.spaced(t))
@@ -299,7 +425,19 @@ def space(ctx):
             if m and m not in baseset:
                 nm.add(m)
     strings_nm = set(G.spaced(t) for t in nm) - strings_base
-    return depth, base, sorted(strings_base), sorted(strings_nm)
+    fam = {"derivation": sorted(strings_base), "near_miss": sorted(strings_nm)}
+    seen = set(strings_base) | strings_nm
+    named_depth = depth - 1
+    for name, toks in (("named", [t for sh, t in X.named(g, named_depth)]), ("arity", X.arity()),
+                       ("lengths", X.lengths()), ("tdparam", X.tdparam())):
+        ss = set()
+        for t in toks:
+            ss.add(G.spaced(t))
+            if name != "named":
+                ss.add(G.dense(t))
+        fam[name] = sorted(ss - seen)
+        seen |= ss
+    return depth, base, fam, named_depth
 
 
 def _workdir():
@@ -316,15 +454,34 @@ def run(ctx):
         shutil.rmtree(d, ignore_errors=True)
 
 
+FAMILIES = ("derivation", "near_miss", "named", "arity", "lengths", "tdparam")
+CTX_RANK = {c: i for i, c in enumerate(CONTEXTS)}
+
+
 def _run(ctx):
-    depth, base, s_base, s_nm = space(ctx)
+    global _API
+    depth, base, fam, named_depth = space(ctx)
+    s_base, s_nm = fam["derivation"], fam["near_miss"]
     ctx.log("depth %d: %d derivations, %d distinct strings (spaced; dense too up to depth 3), %d distinct "
-            "near-miss strings" % (
-        depth, len(base), len(s_base), len(s_nm)))
-    ctx_base = list(G.CONTEXTS)
+            "near-miss strings; side families: %s" % (
+        depth, len(base), len(s_base), len(s_nm),
+        ", ".join("%s %d" % (k, len(fam[k])) for k in FAMILIES[2:])))
+    try:
+        _API = G.compile_api_module(_workdir())
+    except RuntimeError as e:
+        raise InfraError(str(e))
+    ctx_base = list(CONTEXTS)
     ctx_nm = ["decls"] if ctx.quick else ["empty", "decls"]
-    blocks = [(ctx_base, b) for b in pool.chunks(s_base, BLOCK)]
-    blocks += [(ctx_nm, b) for b in pool.chunks(s_nm, BLOCK)]
+    ctx_of = {"derivation": ctx_base, "near_miss": ctx_nm, "named": ctx_base, "arity": ctx_base,
+              "lengths": ctx_base, "tdparam": ctx_base}
+    blocks = []
+    only = getattr(ctx, "opts", {}).get("only")      # debugging aid: --opt only=named,lengths
+    if only:
+        for name in fam:
+            if name not in only.split(","):
+                fam[name] = []
+    for name in FAMILIES:
+        blocks += [(name, ctx_of[name], b) for b in pool.chunks(fam[name], BLOCK)]
     counts = collections.Counter()
     evaluated = 0
     bad = []
@@ -334,7 +491,7 @@ def _run(ctx):
         if isinstance(r, pool.WorkerError):
             raise InfraError("worker failed: %s" % r.tb)
         if isinstance(r, pool.Crash):
-            raise InfraError("worker died (%s) in a block starting with %r" % (r.describe(), block[1][0]))
+            raise InfraError("worker died (%s) in a block starting with %r" % (r.describe(), block[2][0]))
         n, cnt, b = r
         evaluated += n
         counts.update(cnt)
@@ -342,11 +499,13 @@ def _run(ctx):
     nontrivial = counts.pop("nontrivial", 0)
     for k, v in counts.items():
         ctx.count(k, v)
+    for name in fam:
+        ctx.count("strings:%s" % name, len(fam[name]))
     ctx.log("%d evaluations done, %d disagreements" % (evaluated, len(bad)))
-    for i in range(0, len(s_base), max(1, len(s_base) // 40)):
-        ctx.sample({"string": s_base[i], "kind": "derivation"})
-    for i in range(0, len(s_nm), max(1, len(s_nm) // 40)):
-        ctx.sample({"string": s_nm[i], "kind": "near_miss"})
+    for name in FAMILIES:
+        lst = fam[name]
+        for i in range(0, len(lst), max(1, len(lst) // (40 if name in ("derivation", "near_miss") else 8))):
+            ctx.sample({"string": lst[i], "kind": name})
 
     if getattr(ctx, "opts", {}).get("dump"):        # debugging aid: --opt dump=/path/file.json
         import json
@@ -355,27 +514,33 @@ def _run(ctx):
 
     # classify, confirm in fresh FFIs, report (smallest example of every signature first)
     groups = collections.defaultdict(list)
-    for c, s, v, a, b in bad:
+    for c, s, v, a, b, family in bad:
         tokens = G.tokenize(s)
+        if family == "named":
+            tokens = X.strip_names(tokens)
         cs = causes(tokens, c, v, a, b)
         sig = {"kind": v, "cause": "+".join(cs) if cs else "unexplained"}
-        groups[tuple(sorted(sig.items()))].append(((len(tokens), sum(map(len, tokens))), s, c, v, a, b))
+        if family == "named":
+            sig["named_parameter"] = True        # a shape next to the statement's grammar: never mixed with it
+        groups[tuple(sorted(sig.items()))].append(((len(tokens), sum(map(len, tokens))), s, CTX_RANK[c], c, v, a, b,
+                                                   family))
     first, rest = [], []
     # single root causes before combinations, so that each gets one of the (limited) replay files
     for key in sorted(groups, key=lambda k: (dict(k)["cause"].count("+"), k)):
-        lst = sorted(groups[key])
+        lst = sorted(groups[key], key=lambda x: x[:3])
         first.append((key, lst[0]))
         rest.extend((key, x) for x in lst[1:])
-    for key, (_, s, c, v, a, b) in first:
+    for key, (_, s, _r, c, v, a, b, family) in first:
         # the smallest case of every signature must reproduce on FFIs that have seen nothing else
         d = os.path.join(_workdir(), "confirm%d" % len(first))
         os.makedirs(d, exist_ok=True)
-        v2, a2, b2 = judge(G.make_pair(c, d), s)
+        v2, a2, b2 = judge(_fresh_pair(c, d, s), s)
         if v2 != v:
             raise InfraError("verdict for %r in context %s depends on what the FFI parsed before: %s in the "
                              "explorer, %s alone" % (s, c, v, v2))
-    for key, (_, s, c, v, a, b) in first + rest:
-        ctx.violation(dict(key), {"string": s, "context": c, "verdict": v, "inline": a, "compiled": b})
+    for key, (_, s, _r, c, v, a, b, family) in first + rest:
+        ctx.violation(dict(key), {"string": s, "context": c, "verdict": v, "inline": a, "compiled": b,
+                                  "family": family})
 
     counts_accept = 0
     for k, v in counts.items():
@@ -384,34 +549,59 @@ def _run(ctx):
     cov = {
         "evaluations": evaluated,
         "distinct_nontrivial": nontrivial,
-        "rule": "distinct strings: every derivation of depth <= %d of grammar G token-spaced, those of depth <= 3 also "
-                "densely spelled, in the contexts %s, plus every single-token deletion, duplication and adjacent swap of "
-                "every derivation of depth <= %d (token-spaced) in the contexts %s; an evaluation is one "
-                "(string, context) pair given to both parsers; pairs whose names are not declared in the context "
-                "or that contain a declarator name are outside the statement: excluded and counted under "
-                "excluded:*; non-trivial = distinct evaluated strings with at least one structural feature "
-                "(anything but a bare canonical base type)" % (depth, "/".join(ctx_base), min(depth, NM_DEPTH),
-                                                               "/".join(ctx_nm)),
+        "rule": "distinct strings: every derivation of depth <= %d of the extended grammar G (typedefs of int, "
+                "pointer, array, function, function pointer, void, structs, anonymous enum, pointer to anonymous "
+                "struct; float/double _Complex; bool, int32_t, size_t, wchar_t, char16_t) token-spaced, those of "
+                "depth <= 3 also densely spelled, in the contexts %s, plus every single-token deletion, duplication "
+                "and adjacent swap of every derivation of depth <= %d (token-spaced) in the contexts %s; plus the "
+                "side families, in the contexts %s: named = every derivation of depth <= %d as a named parameter in "
+                "the lists (P) (P,int) (int,P) (P,...) (P,Q); arity = parameter lists of 3 and 4 parameters over "
+                "{int, char *} and lists whose parameters have 2..4 parameters themselves (3 nesting levels), with "
+                "and without '...', under 4 hosts, two spellings; lengths = %d literal forms and %d named constants "
+                "in 9 declarator shapes over char/int, two spellings; an evaluation is one (string, context) pair "
+                "given to both parsers (and a second time to each parser that accepted it); pairs whose names are "
+                "not declared in the context or that contain a declarator name are outside the statement: excluded "
+                "and counted under excluded:*; non-trivial = distinct evaluated strings with at least one structural "
+                "feature (anything but a bare canonical base type)" % (
+                    depth, "/".join(ctx_base), min(depth, NM_DEPTH), "/".join(ctx_nm), "/".join(ctx_base),
+                    named_depth, len(X.LEN_LITERALS), len(X.LEN_NAMES)),
         "exhaustive": True,
-        "bound": {"derivation_depth": depth, "near_miss_of_depth": min(depth, NM_DEPTH), "edits": 1},
+        "bound": {"derivation_depth": depth, "near_miss_of_depth": min(depth, NM_DEPTH), "edits": 1,
+                  "named_parameter_depth": named_depth},
         "derivations": len(base),
         "strings_derived": len(s_base),
         "strings_near_miss": len(s_nm),
+        "strings_named": len(fam["named"]),
+        "strings_arity": len(fam["arity"]),
+        "strings_lengths": len(fam["lengths"]),
+        "strings_tdparam": len(fam["tdparam"]),
         "accepted_by_both": counts_accept,
         "disagreements": len(bad),
     }
     return ctx.finish(cov, [
         "differential oracle between the two parsers; no third authority decides which one is right",
         "x86-64 Linux: __stdcall does not change the function type on this platform, only its parsing is compared",
+        "parameter names are not part of the statement's grammar; the 'named' family compares them because "
+        "ffi.callback('int(*)(int x, void *ud)') is the documented idiom, and reports under its own signature",
     ])
+
+
+def _fresh_pair(c, d, s):
+    """FFIs that have parsed nothing yet (for 'api': a module compiled again under a new name)."""
+    if c == "api":
+        try:
+            return G.make_pair(c, d, ext=True, api=G.compile_api_module(d))
+        except RuntimeError as e:
+            raise InfraError(str(e))
+    return G.make_pair(c, d, ext=_needs_ext(X.strip_names(G.tokenize(s)), c))
 
 
 def replay(detail):
     d = os.path.join(build.scratch_shared(), "replay%d" % os.getpid())
     os.makedirs(d, exist_ok=True)
     try:
-        p = G.make_pair(detail["context"], d)
         s = detail["string"]
+        p = _fresh_pair(detail["context"], d, s)
         v, a, b = judge(p, s)
         print("context : %s" % detail["context"])
         print("string  : %r" % s)
